@@ -13,6 +13,7 @@ import Driver.Crash
 import Driver.Timeout
 import Driver.Files
 import Driver.Parse
+import Driver.Cobra
 import Driver.Bridge
 import Driver.Entry
 import Driver.Pflag
@@ -36,6 +37,7 @@ def dispatch (op : String) (inp out : Json) : Json :=
   | "files" => runFilesOp inp out
   | "parse" => runParseOp inp out
   | "lookuparg" => runLookupOp inp out
+  | "cobrafind" => runCobraFindOp inp out
   | "bridge" => runBridgeOp inp out
   | "ccomplete" => runCCompleteOp inp out
   | "entry" => runEntryOp inp out
